@@ -95,6 +95,15 @@ def _lens_cases(ctx, nl, rays_per):
     corp = lensgen.corpus()
     for li in range(nl + len(corp)):
         spec = corp[li] if li < len(corp) else lensgen.gen_spec(rng)
+        if li >= len(corp):
+            # decentres and tilts also ONE AT A TIME (a frame change that only works when several components are set together)
+            for s_ in spec['surfaces']:
+                if 'rx' in s_ and rng.random() < 0.6:
+                    keep = rng.choice(['dx', 'dy', 'rx', 'ry', 'rx', 'ry'])
+                    for key in ('dx', 'dy', 'rx', 'ry'):
+                        if key != keep:
+                            s_[key] = 0.0
+                    hist['single_component_frames'] = hist.get('single_component_frames', 0) + 1
         try:
             o = lensgen.build(spec)
         except Exception as e:
